@@ -12,6 +12,7 @@ variable (s : St) (t : Tid) (p : UPc)
 @[simp] theorem setUpc_queue : (setUpc s t p).queue = s.queue := by unfold setUpc; split <;> rfl
 @[simp] theorem setUpc_lock : (setUpc s t p).lock = s.lock := by unfold setUpc; split <;> rfl
 @[simp] theorem setUpc_closeStarted : (setUpc s t p).closeStarted = s.closeStarted := by unfold setUpc; split <;> rfl
+@[simp] theorem setUpc_closeUnpub : (setUpc s t p).closeUnpub = s.closeUnpub := by unfold setUpc; split <;> rfl
 @[simp] theorem setUpc_portOpen : (setUpc s t p).portOpen = s.portOpen := by unfold setUpc; split <;> rfl
 @[simp] theorem setUpc_writeFault : (setUpc s t p).writeFault = s.writeFault := by unfold setUpc; split <;> rfl
 @[simp] theorem setUpc_madeAt : (setUpc s t p).madeAt = s.madeAt := by unfold setUpc; split <;> rfl
@@ -112,8 +113,9 @@ theorem closingPast_upcOf_setUpc (s : St) (t t' : Tid) (p : UPc) :
     closingPast (upcOf (setUpc s t p) t') = if t' = t then closingPast p else closingPast (upcOf s t') := by
   rw [upcOf_setUpc]; split <;> rfl
 
-/-- while no `close()` has cleared the disconnect callback, no thread is further inside `close()` -/
-def I2 (s : St) : Prop := s.closeStarted = false → ∀ t, closingPast (upcOf s t) = false
+/-- while no `close()` has cleared the disconnect callback and none was entered on an unpublished connection
+    (the path that skips the clearing step), no thread is further inside `close()` -/
+def I2 (s : St) : Prop := s.closeStarted = false → s.closeUnpub = false → ∀ t, closingPast (upcOf s t) = false
 
 theorem I2_step (P : Params) (s s' : St) (l : Label) (o : Option Obs) (hi : I2 s)
     (hs : step P s l = some (s', o)) : I2 s' := by
@@ -122,9 +124,9 @@ theorem I2_step (P : Params) (s s' : St) (l : Label) (o : Option Obs) (hi : I2 s
   case s => l4_split_s hs <;> simp_all [enqueue, upcOf]
   case r => l4_split_r hs <;> simp_all [enqueue, upcOf]
   case u t =>
-    by_cases hc : s.closeStarted = false
+    by_cases hc : s.closeStarted = false ∧ s.closeUnpub = false
     · have hpast : ∀ pc, upcOf s t = .closing pc → pc = .c0 := by
-        intro pc h; have := hi hc t; rw [h] at this; simpa using this
+        intro pc h; have := hi hc.1 hc.2 t; rw [h] at this; simpa using this
       l4_split_u hs <;> (try simp only [closingPast_upcOf_setUpc] at *) <;> simp_all [upcOf]
     · l4_split_u hs <;> simp_all
   all_goals l4_split_other hs <;> (try simp only [closingPast_upcOf_setUpc] at *) <;> simp_all [upcOf]
@@ -132,9 +134,9 @@ theorem I2_step (P : Params) (s s' : St) (l : Label) (o : Option Obs) (hi : I2 s
 theorem I2_inv (P : Params) (s : St) (h : Reachable P s) : I2 s :=
   reachable_induction P I2 (by simp [I2, upcOf, lookup, closingPast]) (fun s s' l o hi hs => I2_step P s s' l o hi hs) s h
 
-theorem I2_c0 {s : St} (hi : I2 s) (hc : s.closeStarted = false) (t : Tid) :
+theorem I2_c0 {s : St} (hi : I2 s) (hc : s.closeStarted = false) (hu : s.closeUnpub = false) (t : Tid) :
     ∀ pc, upcOf s t = .closing pc → pc = .c0 := by
-  intro pc h; have := hi hc t; rw [h] at this; simpa using this
+  intro pc h; have := hi hc hu t; rw [h] at this; simpa using this
 
 /-- the sender holds the transport lock exactly while writing -/
 def holdsLock : SPc → Bool
@@ -155,7 +157,8 @@ def holdsLock : SPc → Bool
 @[simp] theorem holdsLock_dead : holdsLock .dead = false := rfl
 
 /-- while no `close()` has begun, only the sender takes the transport lock -/
-def I3 (s : St) : Prop := s.closeStarted = false → s.lock = if holdsLock s.spc then some tidS else none
+def I3 (s : St) : Prop :=
+  s.closeStarted = false → s.closeUnpub = false → s.lock = if holdsLock s.spc then some tidS else none
 
 theorem I3_step (P : Params) (s s' : St) (l : Label) (o : Option Obs) (h1 : I1 s) (h2 : I2 s) (hi : I3 s)
     (hs : step P s l = some (s', o)) : I3 s' := by
@@ -165,8 +168,8 @@ theorem I3_step (P : Params) (s s' : St) (l : Label) (o : Option Obs) (h1 : I1 s
   case s => l4_split_s hs <;> simp_all [enqueue]
   case r => l4_split_r hs <;> simp_all [enqueue]
   case u t =>
-    by_cases hc : s.closeStarted = false
-    · have hpast := I2_c0 h2 hc t
+    by_cases hc : s.closeStarted = false ∧ s.closeUnpub = false
+    · have hpast := I2_c0 h2 hc.1 hc.2 t
       l4_split_u hs <;> simp_all
     · l4_split_u hs <;> simp_all
   all_goals l4_split_other hs <;> simp_all
@@ -191,7 +194,7 @@ theorem I3_step (P : Params) (s s' : St) (l : Label) (o : Option Obs) (h1 : I1 s
 
 /-- the part of "up" that can only be lost, never regained -/
 def Good (s : St) : Prop :=
-  lossBegun s.rpc = false ∧ s.closeStarted = false ∧ s.writeFault = false ∧ s.portOpen = true
+  lossBegun s.rpc = false ∧ s.closeStarted = false ∧ s.closeUnpub = false ∧ s.writeFault = false ∧ s.portOpen = true
 
 theorem Good_back (P : Params) (s s' : St) (l : Label) (o : Option Obs)
     (hs : step P s l = some (s', o)) (hg : Good s') : Good s := by
@@ -297,7 +300,7 @@ theorem I4_step (P : Params) (s s' : St) (l : Label) (o : Option Obs) (h1 : I1 s
   have hb := hi hg
   unfold Good at hg hg'
   unfold I1 at h1
-  have hlock := h3 hg.2.1
+  have hlock := h3 hg.2.1 hg.2.2.1
   clear hi h3
   cases l
   case tick d =>
@@ -331,11 +334,11 @@ theorem GapInv_reachable (P : Params) (s : St) (h : Reachable P s) : GapInv P s 
     command spacing plus the keep-alive interval -/
 theorem gap_inv (P : Params) (s : St) (h : Reachable P s)
     (hup : s.spc ≠ .notStarted ∧ s.spc ≠ .done ∧ s.spc ≠ .dead ∧ lossBegun s.rpc = false ∧
-      s.closeStarted = false ∧ s.writeFault = false ∧ s.portOpen = true) :
+      s.closeStarted = false ∧ s.closeUnpub = false ∧ s.writeFault = false ∧ s.portOpen = true) :
     s.now ≤ lastTx s + P.spacing + P.kaInterval := by
   obtain ⟨_, _, _, h4⟩ := GapInv_reachable P s h
-  obtain ⟨hn, hd, hx, hl, hc, hw, hp⟩ := hup
-  have hb := h4 ⟨hl, hc, hw, hp⟩
+  obtain ⟨hn, hd, hx, hl, hc, hu, hw, hp⟩ := hup
+  have hb := h4 ⟨hl, hc, hu, hw, hp⟩
   rw [lastTx_eq]
   cases hpc : s.spc <;> simp_all [gapB] <;> omega
 
